@@ -16,3 +16,5 @@ open Nitime.C12.Props
 #print axioms defaultIJ_mem
 #print axioms analyzer_freq_axis
 #print axioms analyzer_grid_flag
+#print axioms analyzer_retarget_spectra
+#print axioms analyzer_spectra_after_set_input
